@@ -80,6 +80,7 @@ func H_C19_selfcomp_undelegate() {
 func H_C19_selfcomp_redelegate() {
 	selfcomp("C19.selfcomp.redelegate", OpRedelegate, shapeActor("shape"), Opts{Rewards: true, BigPool: true, StrictRewards: true}, false)
 }
+
 // a second redelegation of the same block: the queue slot (completion time) already holds another
 // delegator's entry, so the slot is rewritten with two entries - their order must not depend on a map
 func H_C19_selfcomp_redelegate_slot() {
